@@ -7,6 +7,7 @@ package app
 import (
 	"context"
 	"fmt"
+	"git.defalsify.org/vise.git/db"
 	"sort"
 	"strings"
 
@@ -142,6 +143,10 @@ type Env struct {
 	Answer func(label string, n int) int
 	// Yield, when non-nil, is called at every resource callback (scheduling point for C19).
 	Yield func(what string)
+	// Store, when non-nil, is the store handle of the current request's persister, which the application's functions
+	// use for their own data as well (the examples/db arrangement): every function call writes and reads a
+	// user-data entry through it, selecting the data type itself.
+	Store db.Db
 }
 
 func NewEnv() *Env {
@@ -271,6 +276,15 @@ func (r *Res) FuncFor(ctx context.Context, sym string) (resource.EntryFunc, erro
 		l := ctxLang(ctx)
 		r.Env.Log = append(r.Env.Log, Call{Kind: "call", Sym: sym, Lang: l, Input: string(input), Sess: ctxSess(ctx)})
 		r.Env.Counts[sym]++
+		if st := r.Env.Store; st != nil {
+			st.SetPrefix(db.DATATYPE_USERDATA)
+			if err := st.Put(ctx, []byte("calls"), []byte(fmt.Sprint(len(r.Env.Log)))); err != nil {
+				return resource.Result{}, fmt.Errorf("application data: %v", err)
+			}
+			if _, err := st.Get(ctx, []byte("calls")); err != nil {
+				return resource.Result{}, fmt.Errorf("application data: %v", err)
+			}
+		}
 		return f(r.Env, nodeSym, input, l)
 	}, nil
 }
